@@ -108,6 +108,12 @@ class SymEnv(object):
         m.Fraction = _sym_fraction
       if hasattr(m, 'pretty_midi') and k.endswith('.midi_io'):
         from engine import pmlite  # pylint: disable=g-import-not-at-top
+        # module-level settings the real module received at import time
+        # (midi_io raises pretty_midi.pretty_midi.MAX_TICK) carry over
+        try:
+          pmlite.pretty_midi.MAX_TICK = m.pretty_midi.pretty_midi.MAX_TICK
+        except AttributeError:
+          pass
         m.pretty_midi = pmlite
       if hasattr(m, 'random') and isinstance(m.random, types.ModuleType):
         from engine import symrandom  # pylint: disable=g-import-not-at-top
